@@ -1143,6 +1143,10 @@ func Retract(vm *VM, t Term, k Cont, env *Env) *Promise {
 		ks[i] = func(_ context.Context) *Promise {
 			return Unify(vm, t, raw, func(env *Env) *Promise {
 				// The database may have been updated since the call. Look for the very clause in the current database.
+				u, ok := vm.procedures[pi].(*userDefined)
+				if !ok { // Abolished.
+					return Bool(false)
+				}
 				j := -1
 				for n := range u.clauses {
 					if u.clauses[n].is(&c) {
